@@ -1,9 +1,9 @@
 CONSTANTS
   Versions <- TheVersions
   Reloaders = {1}
-  Validators = {1}
-  InPlace = TRUE
-  Leftover = FALSE
+  Validators = {1, 2, 3}
+  InPlace = FALSE
+  Leftover = TRUE
 INIT Init
 NEXT Next
 INVARIANTS NoTornRead Monotone KeepOld
